@@ -97,7 +97,8 @@ class Episode:
         if r > self.level[t]:
             return
         try:
-            d = self.sched.on_trial_result(self.trials[t], {METRIC: float(v), RES: r})
+            # (value -1 is the specification's NaN: a trial that reports "not a number" without failing)
+            d = self.sched.on_trial_result(self.trials[t], {METRIC: float("nan") if v == -1 else float(v), RES: r})
         except Exception as exc:
             return self._crash("on_trial_result", exc)
         self.lastr[t] = r
